@@ -642,6 +642,13 @@ func (w *worldExec) delegate(s *DlgSpec) {
 	if s.Iss < 0 || s.Iss >= lookAlike {
 		s.Iss = 0 // an issuer is always a cast member holding a key
 	}
+	if s.PolFrom != "" {
+		// the attenuation idiom: the built policy is the BASE token's statements followed by this
+		// plan's own ones, whatever a minimised plan lists in their place; the model reads the same
+		if base, ok := w.outbox[s.PolFrom]; ok && base.kind == "dlg" && base.obj != nil && len(base.dspec.Pol) <= len(s.Pol) {
+			s.Pol = append(append([]Stmt{}, base.dspec.Pol...), s.Pol[len(base.dspec.Pol):]...)
+		}
+	}
 	o := w.o
 	var tk *delegation.Token
 	var err error
